@@ -245,6 +245,34 @@ class Gen:
         self.emit(f"addi sp, sp, {frame}", "epilogue-sp")
         self.emit("ret", "ret")
 
+    def bytebuf(self, f):
+        """a character buffer at the top of the frame, filled byte by byte up to the frame's last byte
+        (digits of a number, a terminating NUL at entry sp - 1), read back with lbu / lhu"""
+        r = self.rng
+        self.stats["functions"] += 1
+        self.stats["bytebuf"] = self.stats.get("bytebuf", 0) + 1
+        frame = r.choice([16, 32])
+        t = r.sample(TEMPS, 2)
+        self.emit(f"{f.name}:", None, indent=False)
+        self.emit(f"addi sp, sp, -{frame}", "prologue-sp")
+        self.emit("sw ra, 0(sp)", "save")
+        self.emit(f"sb zero, {frame - 1}(sp)", "store-local")
+        if f.nargs >= 1:
+            self.emit(f"andi {t[0]}, a0, 15", "arith")
+        else:
+            self.emit(f"li {t[0]}, {r.choice([3, 9])}", "li-temp")
+        for i in range(1, f.nargs):
+            self.emit(f"add {t[0]}, {t[0]}, a{i}", "arith")          # every argument is read
+        self.emit(f"addi {t[0]}, {t[0]}, 48", "arith")
+        self.emit(f"sb {t[0]}, {frame - 2}(sp)", "store-local")
+        self.emit(f"sh {t[0]}, {frame - 4}(sp)", "store-local")
+        self.emit(f"lbu {t[1]}, {frame - 1}(sp)", "load-local")
+        self.emit(f"lhu {t[0]}, {frame - 2}(sp)", "load-local")
+        self.emit(f"add a0, {t[0]}, {t[1]}", "set-result")
+        self.emit("lw ra, 0(sp)", "restore")
+        self.emit(f"addi sp, sp, {frame}", "epilogue-sp")
+        self.emit("ret", "ret")
+
     def preloop(self, f):
         """default result before a scan loop; the loop sets a0 only on its 'found' exit"""
         r = self.rng
@@ -339,7 +367,15 @@ class Gen:
         else:
             self.emit(f"{r.choice(['addi a0, a0, 4', 'slli a0, a0, 1', 'add a0, a0, a1'])}", "arith")
         self.emit("addi a1, a1, -1", "arith")
-        self.emit(f"{r.choice(['bnez a1', 'bgtz a1', 'bgt a1, zero'])}, {target}", "branch")
+        if r.random() < 0.4:
+            # a while loop: the exit test first, the loop closed by a plain jump back to the head (which
+            # is the function's first instruction - a jump inside the function, not an entry by jump)
+            done = self.fresh("edone")
+            self.emit(f"{r.choice(['beqz a1', 'blez a1'])}, {done}", "branch")
+            self.emit(f"j {target}", "loop-jump")
+            self.emit(f"{done}:", None, indent=False)
+        else:
+            self.emit(f"{r.choice(['bnez a1', 'bgtz a1', 'bgt a1, zero'])}, {target}", "branch")
         if fill:
             self.emit(f"li a0, {r.choice([0, 1])}", "set-result")
         self.emit("ret", "ret")
@@ -374,6 +410,8 @@ class Gen:
             return self.leaf(f)
         if 0.50 <= k < 0.58:
             return self.framepointer(f)
+        if 0.58 <= k < 0.64:
+            return self.bytebuf(f)
         if 0.40 <= k < 0.50 and f.nargs >= 1:
             return self.outloop(f)
         if k < 0.32 and f.nargs == 2:
